@@ -159,6 +159,7 @@ def key_obj(i):
 
 
 _IMPORT_CACHE = {}
+_IMPORT_RAISED = []          # key fields on which import_public_key raised something other than KeyImportError
 
 
 def import_class(data):
@@ -169,8 +170,9 @@ def import_class(data):
             r = key_id(asyncssh.import_public_key(data))
         except asyncssh.KeyImportError:
             r = None
-        except Exception:
+        except Exception as e:
             r = -1
+            _IMPORT_RAISED.append((data, type(e).__name__))
         _IMPORT_CACHE[data] = r
     return _IMPORT_CACHE[data]
 
@@ -868,7 +870,8 @@ def stage_known_hosts(ctx):
 # ================================================================================================
 # stage: authorized_keys
 
-CMDS = ['ls', 'echo hi', 'a,b', 'x="y"', 'sed s/\\\\/x/', 'a\\nb', 'printf "%s\\n" ok', 'tr a-z \\\\', 'a\\ b', "awk '{print $1}'", '']
+CMDS = ['ls', 'echo hi', 'a,b', 'x="y"', 'sed s/\\\\/x/', 'a\\nb', 'printf "%s\\n" ok', 'tr a-z \\\\', 'a\\ b', "awk '{print $1}'", '',
+        'echo \\"hi\\" there', 'a\\"b', 'grep -c \\\\\\"x']
 ENVS = ['A=b', 'PATH=/bin:/usr/bin', 'X=', 'Y=a=b', 'Z="q"', 'B=a\\tb', 'A=c']
 PERMITS = ['h:80', 'a.ex.com:22', '[::1]:443', '10.0.0.1:*', '[h]:*', 'h:080', '*:80']
 FLAGL = ['no-pty', 'no-port-forwarding', 'no-agent-forwarding', 'no-X11-forwarding', 'restrict', 'pty', 'cert-authority', 'no-user-rc']
@@ -903,8 +906,18 @@ def gen_from(rng, ossh):
     return ','.join(comps)
 
 
-def gen_ossh_options(rng):
-    """An option string inside the documented OpenSSH grammar. Returns (string, tags)."""
+def gen_ossh_options(rng, plain_backslash=False):
+    """An option string inside the documented OpenSSH grammar. Returns (string, tags).
+    One string never combines the two special classes (keyword case, backslash in front of a quote);
+    plain_backslash=True excludes the latter altogether."""
+    while True:
+        o, tags = _gen_ossh_options(rng)
+        if 'backslash_quote' in tags and ('case' in tags or plain_backslash):
+            continue
+        return o, tags
+
+
+def _gen_ossh_options(rng):
     parts, tags = [], set()
     names_used = set()
     for _ in range(rng.choice([1, 1, 2, 2, 3, 4])):
@@ -936,7 +949,9 @@ def gen_ossh_options(rng):
         if rng.random() < 0.06:
             name = rng.choice([name.upper(), name.title()])
             tags.add('case')
-        if '\\' in val.replace('\\"', ''):
+        if re.search(r'(?<!\\)(\\\\)*\\"', val):
+            tags.add('backslash_quote')          # an odd run of backslashes directly in front of a double quote
+        if '\\' in val:
             tags.add('backslash')
         parts.append(name + '=' + ossh_quote(val))
     if not parts:
@@ -1150,6 +1165,8 @@ def gen_ak_query(rng, lines):
 def ak_kind(line):
     if 'case' in line['tags']:
         return 'ak_keyword_case'
+    if 'backslash_quote' in line['tags']:
+        return 'ak_backslash_quote'
     if 'backslash' in line['tags']:
         return 'ak_backslash'
     return 'ak_options'
@@ -1209,7 +1226,7 @@ def stage_authorized_keys(ctx):
             base = [ln for ln in lines if ln['key'] is not None]
             if base:
                 kind = rng.choice(DAMAGE_KINDS)
-                o = gen_ossh_options(rng)[0] + ' ' if rng.random() < 0.5 else ''
+                o = gen_ossh_options(rng, True)[0] + ' ' if rng.random() < 0.5 else ''
                 bad_text = o + damaged_key(rng, kind)
                 pos = rng.randint(0, len(base))
                 t0 = ''.join(ln['text'] + '\n' for ln in base)
@@ -1231,9 +1248,12 @@ def stage_authorized_keys(ctx):
         cands = set()
         for q in queries:
             cands |= {q[1], q[2]}
-        for m in re.finditer(r'[0-9a-fA-F:.]*:[0-9a-fA-F:.]*(/\d+)?', text):
-            cands.add(m.group(0))
-        t6 = ip6_table(cands | pattern_cands(text.replace('"', ' ').replace('=', ' ')))
+        # address-like pieces of the option values, however they are quoted (from=20"01:db8::/32" is 2001:db8::/32)
+        for variant in (text, text.replace('"', ''), text.replace('"', '').replace('\\', '')):
+            for m in re.finditer(r'[0-9a-fA-F:.]*:[0-9a-fA-F:.]*(/\d+)?', variant):
+                cands.add(m.group(0))
+            cands |= pattern_cands(variant.replace('"', ' ').replace('=', ' '))
+        t6 = ip6_table(cands)
         cases.append('(%s, %s, %s)' % (
             coq_tables(tk, [], [], t6), zs(text),
             clist(list(zip(queries, got)), lambda e: '(%d, %s, %s, %s, %s, %s)' % (
@@ -1268,6 +1288,10 @@ def run(ctx):
         'key import (import_public_key), base64 decoding, HMAC-SHA1 and IPv6 text parsing are external functions of the model '
         '(record `ext`; theorems hold for every such function); in the correspondence they are tables recorded during the run '
         '(key import from asyncssh itself, the others from the Python standard library)',
+        'premise importer_total (import_public_key fails with KeyImportError only) of the damaged-key theorems is an assumption '
+        'about the key importer; every run checks it on all generated key fields (15 kinds of damage incl. impossible RSA/EC/DSA '
+        'parameters) and alarms if an import raises anything else',
+        'str.lower() on option keywords is modelled for ASCII letters only',
         'fnmatch / re, ipaddress (IPv4 parsing and netmasks are modelled and tied; IPv6 parsing is not), str.splitlines/strip/split '
         '(modelled and tied, whitespace tables checked against the running interpreter)',
         'the direct oracle is harness/c17_ref.py, written from the OpenSSH manual pages and sources; on single-name known_hosts '
@@ -1289,6 +1313,12 @@ def run(ctx):
     stage_options_tokenizer(ctx)
     stage_known_hosts(ctx)
     stage_authorized_keys(ctx)
+    # premise importer_total of the skipped-line theorems: the importer fails with KeyImportError only
+    ctx.cov['oracle']['importer_non_KeyImportError_outcomes'] = len(_IMPORT_RAISED)
+    if _IMPORT_RAISED:
+        ctx.broke('assumption:importer_total',
+                  f'import_public_key raised {_IMPORT_RAISED[0][1]} (not KeyImportError) on the key field {_IMPORT_RAISED[0][0]!r}; '
+                  f'{len(_IMPORT_RAISED)} such fields - the premise of C17_unparsable_key_line_inert / C17_ak_not_a_key_line does not hold')
 
 
 def replay(rp):
